@@ -259,6 +259,7 @@ const KINDS: &[&str] = &[
     "file_info",
     "master_channel_config",
     "read_handler_octet_strings",
+    "write_dead_band_request",
 ];
 
 fn bit(x: u64, k: u32) -> bool {
@@ -317,6 +318,72 @@ pub fn run_struct(c: &SCase) -> CaseOut {
             let f = ffi::HeaderInfo::from(h);
             if f.variation() != fv || f.is_event() != bit(b, 0) || f.has_flags() != bit(b, 1) {
                 fail(&mut out, kind, format!("variation {:?} is_event {} has_flags {} crosses as {:?} {} {}", fv, bit(b, 0), bit(b, 1), f.variation(), f.is_event(), f.has_flags()));
+            }
+        }
+        "write_dead_band_request" => {
+            // a request object built through the binding, header by header, is converted to the native headers every time
+            // it is handed to the master - it stays the caller's object, so the second conversion equals the first
+            use dnp3::master::DeadBandHeader;
+            let req = crate::write_dead_band_request_create();
+            let mut native: Vec<DeadBandHeader> = vec![];
+            let nh = 1 + (a % 3) as usize;
+            for h in 0..nh {
+                let k = ((a >> (2 + 3 * h)) % 6) as u8;
+                let n = 1 + ((a >> (12 + 2 * h)) % 3) as usize;
+                let item = |j: usize| -> (u16, u32) {
+                    let idx = (b >> (8 * ((h * 3 + j) % 7))) as u16;
+                    let val = (cc >> (4 * ((h * 3 + j) % 8))) as u32;
+                    (idx, val)
+                };
+                unsafe {
+                    match k {
+                        0 => {
+                            native.push(DeadBandHeader::group34_var1_u8((0..n).map(|j| (item(j).0 as u8, item(j).1 as u16)).collect()));
+                            for j in 0..n {
+                                crate::write_dead_band_request_add_g34v1_u8(req, item(j).0 as u8, item(j).1 as u16);
+                            }
+                        }
+                        1 => {
+                            native.push(DeadBandHeader::group34_var1_u16((0..n).map(|j| (item(j).0, item(j).1 as u16)).collect()));
+                            for j in 0..n {
+                                crate::write_dead_band_request_add_g34v1_u16(req, item(j).0, item(j).1 as u16);
+                            }
+                        }
+                        2 => {
+                            native.push(DeadBandHeader::group34_var2_u8((0..n).map(|j| (item(j).0 as u8, item(j).1)).collect()));
+                            for j in 0..n {
+                                crate::write_dead_band_request_add_g34v2_u8(req, item(j).0 as u8, item(j).1);
+                            }
+                        }
+                        3 => {
+                            native.push(DeadBandHeader::group34_var2_u16((0..n).map(|j| (item(j).0, item(j).1)).collect()));
+                            for j in 0..n {
+                                crate::write_dead_band_request_add_g34v2_u16(req, item(j).0, item(j).1);
+                            }
+                        }
+                        4 => {
+                            native.push(DeadBandHeader::group34_var3_u8((0..n).map(|j| (item(j).0 as u8, item(j).1 as f32 * 0.5)).collect()));
+                            for j in 0..n {
+                                crate::write_dead_band_request_add_g34v3_u8(req, item(j).0 as u8, item(j).1 as f32 * 0.5);
+                            }
+                        }
+                        _ => {
+                            native.push(DeadBandHeader::group34_var3_u16((0..n).map(|j| (item(j).0, item(j).1 as f32 * 0.5)).collect()));
+                            for j in 0..n {
+                                crate::write_dead_band_request_add_g34v3_u16(req, item(j).0, item(j).1 as f32 * 0.5);
+                            }
+                        }
+                    }
+                    crate::write_dead_band_request_finish_header(req);
+                }
+            }
+            let (first, second) = unsafe { ((*req).build(), (*req).build()) };
+            unsafe { crate::write_dead_band_request_destroy(req) };
+            let want = format!("{:?}", native);
+            if format!("{:?}", first) != want {
+                fail(&mut out, kind, format!("built through the binding: {:?}, natively: {want}", first));
+            } else if format!("{:?}", second) != want {
+                fail(&mut out, kind, format!("the same request object converted a second time gives {:?}, the first time {want}", second));
             }
         }
         "file_info" => {
